@@ -5,14 +5,16 @@ use serde::{Deserialize, Serialize};
 use simcore::rng::Rng;
 
 /// SQL alphabet (index = `sql` field of the ops). `$n` placeholders: 0, 1, 1, 2.
-pub const SQLS: [&str; 4] = [
+pub const SQLS: [&str; 5] = [
     "SELECT 1",
     "SELECT $1",
     "SELECT $1 AS other",
     "UPDATE t SET a = $1 WHERE b = $2",
+    "SELECT $1, $2, $3, $4, $5, $6",
 ];
 /// Type-list alphabet (index = `types` field of the ops), as OIDs of built-in types.
-pub const TYPELISTS: [&[u32]; 5] = [&[], &[23], &[25], &[20], &[23, 25]];
+/// (the last two are long and differ in their first entry only)
+pub const TYPELISTS: [&[u32]; 7] = [&[], &[23], &[25], &[20], &[23, 25], &[23, 25, 25, 25, 25, 25], &[20, 25, 25, 25, 25, 25]];
 /// Custom recycling SQL alphabet.
 pub const CUSTOMS: [&str; 3] = ["SELECT 1", "DISCARD ALL", "SELECT 1; RESET ALL"];
 
@@ -170,8 +172,8 @@ pub const SLOTS: usize = 2;
 
 fn gen_key(rng: &mut Rng) -> (u8, u8) {
     // text 1 ("SELECT $1") dominates so that keys differing only in types are common
-    let sql = rng.weighted(&[2, 8, 1, 1]) as u8;
-    let types = rng.weighted(&[4, 3, 3, 1, 1]) as u8;
+    let sql = rng.weighted(&[2, 8, 1, 1, 2]) as u8;
+    let types = if sql == 4 { *rng.pick(&[0u8, 5, 5, 6, 6]) } else { rng.weighted(&[4, 3, 3, 1, 1, 1, 1]) as u8 };
     (sql, types)
 }
 
